@@ -220,38 +220,50 @@ let () =
    from them and checks the constraints the property puts on them *)
 let float_of_bits z = Int64.float_of_bits (u64_of_z z)
 
-let gen_constraints layout mx fill now (pl : (int * int * z) list) : string option =
+(* the constraints on generated lists are the extracted [gen_verdict] (Model/Generate.v); the text
+   below only says where, for the reader of a replay *)
+let gen_diagnose layout mx now (pl : (int * int * z) list) : string =
   let k = List.length layout in
   let per = Array.make k [] in
   List.iter (fun (a, t, v) -> if a >= 0 && a < k then per.(a) <- (t, v) :: per.(a)) pl;
   let per = Array.map List.rev per in
+  let s0 = int_of_z (fst (List.hd layout)) in
+  let err = ref None in
+  let fail m = if !err = None then err := Some m in
+  List.iteri (fun i (sz, nz) ->
+    let s = int_of_z sz and n = int_of_z nz in
+    let last = now - (now mod s) in
+    let pts = per.(i) in
+    if List.length pts <> n then fail (Printf.sprintf "archive %d: %d points, want %d" i (List.length pts) n);
+    List.iteri (fun j (t, v) ->
+      if t <> last - (n - 1 - j) * s then fail (Printf.sprintf "archive %d point %d at %d, want %d" i j t (last - (n - 1 - j) * s));
+      let f = float_of_bits v in
+      if not (f >= 0.0 && f <= float_of_int (mx * s / s0)) then
+        fail (Printf.sprintf "archive %d point %d value out of bounds" i j)) pts;
+    if i > 0 then begin
+      let (fsz, _) = List.nth layout (i - 1) in
+      let fs = int_of_z fsz in
+      let finer = per.(i - 1) in
+      List.iter (fun (t, v) ->
+        let covered = List.init (s / fs) (fun q -> t + q * fs) in
+        if List.for_all (fun ft -> List.mem_assoc ft finer) covered then begin
+          let sum = List.fold_left (fun acc ft -> acc +. float_of_bits (List.assoc ft finer)) 0.0 covered in
+          if sum <> float_of_bits v then fail (Printf.sprintf "archive %d slot %d holds %g, its finer slots sum to %g" i t (float_of_bits v) sum)
+        end) pts
+    end) layout;
+  match !err with Some m -> m | None -> "(no detail)"
+
+let gen_constraints layout mx fill now (pl : (int * int * z) list) : string option =
   if not fill then (if pl = [] then None else Some "points printed without fill")
   else begin
-    let s0 = int_of_z (fst (List.hd layout)) in
-    let err = ref None in
-    let fail m = if !err = None then err := Some m in
-    List.iteri (fun i (sz, nz) ->
-      let s = int_of_z sz and n = int_of_z nz in
-      let last = now - (now mod s) in
-      let pts = per.(i) in
-      if List.length pts <> n then fail (Printf.sprintf "archive %d: %d points, want %d" i (List.length pts) n);
-      List.iteri (fun j (t, v) ->
-        if t <> last - (n - 1 - j) * s then fail (Printf.sprintf "archive %d point %d at %d, want %d" i j t (last - (n - 1 - j) * s));
-        let f = float_of_bits v in
-        if not (f >= 0.0 && f <= float_of_int mx *. float_of_int s /. float_of_int s0) then
-          fail (Printf.sprintf "archive %d point %d value out of bounds" i j)) pts;
-      if i > 0 then begin
-        let (fsz, _) = List.nth layout (i - 1) in
-        let fs = int_of_z fsz in
-        let finer = per.(i - 1) in
-        List.iter (fun (t, v) ->
-          let covered = List.init (s / fs) (fun q -> t + q * fs) in
-          if List.for_all (fun ft -> List.mem_assoc ft finer) covered then begin
-            let sum = List.fold_left (fun acc ft -> acc +. float_of_bits (List.assoc ft finer)) 0.0 covered in
-            if sum <> float_of_bits v then fail (Printf.sprintf "archive %d slot %d holds %g, its finer slots sum to %g" i t (float_of_bits v) sum)
-          end) pts
-      end) layout;
-    !err
+    let k = List.length layout in
+    let lists = List.init k (fun i -> List.filter_map (fun (a, t, v) -> if a = i then Some { p_time = z_of_int t; p_val = v } else None) pl) in
+    let stray = List.exists (fun (a, _, _) -> a < 0 || a >= k) pl in
+    match int_of_z (gen_verdict flocq_fops fl_of_int layout (z_of_int mx) (z_of_int now) lists) with
+    | 0 when not stray -> None
+    | v -> Some (Printf.sprintf "clause %d (%s): %s" v
+                   (match v with 1 -> "one point per retained slot" | 2 -> "value in [0, max*step/step0]" | 3 -> "coarser = sum of retained finer" | _ -> "stray archive id")
+                   (gen_diagnose layout mx now pl))
   end
 
 let () =
